@@ -97,7 +97,8 @@ def gen_plan(rng, index, tier):
             plan["anchor"] = rng.choice([None] + list(range(n_nodes)))
             cms = plan["centered"]["max_stride"]
             crop = int(math.ceil(rng.choice([32, 48, 64]) / cms) * cms)
-            plan["crop_hw"] = [crop, crop]
+            crop2 = int(math.ceil(rng.choice([32, 48, 64]) / cms) * cms) if rng.random() < 0.3 else crop  # crop_hw is (height, width): not always square
+            plan["crop_hw"] = [crop, crop2]
             plan["max_instances"] = None
         if blob:
             # wide enough that the stride grid still sees a unique maximum above the 0.2 threshold after every rescale
@@ -128,12 +129,12 @@ def gen_plan(rng, index, tier):
                 fr["animals"] = [pts]
             else:
                 ci = plan["centered"]
-                crop = plan["crop_hw"][0]
+                crop_lo, crop = min(plan["crop_hw"]), max(plan["crop_hw"])
                 sig_ci = ci["scale"] * e
                 sig_c = plan["centroid"]["scale"] * e
                 S_ci, S_c = ci["stride"], plan["centroid"]["stride"]
                 # body half-extent (original px) so that the body sits >= 4 cells + 2 px inside the crop
-                ext = (crop / 2.0 - 4.0 * S_ci - 3.0) / sig_ci
+                ext = (crop_lo / 2.0 - 4.0 * S_ci - 3.0) / sig_ci
                 if ext < 2.0:
                     ok = False
                     break
@@ -276,7 +277,8 @@ def execute(plan, choices=None):
     violations = []
     probes = {"keypoints_compared": 0, "invisible_checked": 0, "scaled_runs": 0, "size_matched_runs": 0, "padded_runs": 0,
               "worst_err_over_tol_x1000_max": 0, "provider_pairs_compared": 0, "integral_refinement": 0, "instances_compared": 0, "degenerate_tie_scene_skipped": 0, "mixed_frame_sizes": 0, "frame_without_visible_animal": 0,
-              "grayscale_blob_frames": int(plan.get("frame_kind") == "blob")}
+              "grayscale_blob_frames": int(plan.get("frame_kind") == "blob"),
+              "non_square_crop": int(plan.get("crop_hw") is not None and plan["crop_hw"][0] != plan["crop_hw"][1])}
 
     def V(kind, where, detail):
         violations.append({"kind": kind, "sig": f"{kind}:{where}", "detail": detail})
